@@ -83,6 +83,8 @@ mutual
     | ifElse (kIf kThen : Item) (c : S) (body : Stl) (kElse : Item) (els : Stl) (kEnd : Item)
     | whileS (kWhile kDo : Item) (c : S) (body : Stl) (kEnd : Item)
     | repeatS (kRep : Item) (body : Stl) (kUntil : Item) (c : S) (kEnd : Item)
+    /-- `FOR ctl := frm TO to [BY step] DO body END_FOR` -/
+    | forS (kFor ctl asg : Item) (frm : S) (kTo : Item) (to : S) (step : Option (Item × S)) (kDo : Item) (body : Stl) (kEnd : Item)
     | exitS (k : Item)
     | returnS (k : Item)
   /-- statements, each followed by its semicolon -/
@@ -98,6 +100,10 @@ mutual
     | .ifElse kIf kThen c body kElse els kEnd => kIf :: (c.toks ++ kThen :: (body.toks ++ kElse :: (els.toks ++ [kEnd])))
     | .whileS kW kDo c body kEnd => kW :: (c.toks ++ kDo :: (body.toks ++ [kEnd]))
     | .repeatS kR body kU c kEnd => kR :: (body.toks ++ kU :: (c.toks ++ [kEnd]))
+    | .forS kFor ctl asg frm kTo to none kDo body kEnd =>
+        kFor :: ctl :: asg :: (frm.toks ++ kTo :: (to.toks ++ kDo :: (body.toks ++ [kEnd])))
+    | .forS kFor ctl asg frm kTo to (some (kBy, st)) kDo body kEnd =>
+        kFor :: ctl :: asg :: (frm.toks ++ kTo :: (to.toks ++ kBy :: (st.toks ++ kDo :: (body.toks ++ [kEnd]))))
     | .exitS k => [k]
     | .returnS k => [k]
   def Stl.toks : Stl → List Item
@@ -115,6 +121,9 @@ mutual
         .t "If" [.n "If" [("expr", c.sx), ("body", .l body.sxs), ("else_ifs", .l []), ("else_body", .l els.sxs)]]
     | .whileS _ _ c body _ => .t "While" [.n "While" [("condition", c.sx), ("body", .l body.sxs)]]
     | .repeatS _ body _ c _ => .t "Repeat" [.n "Repeat" [("until", c.sx), ("body", .l body.sxs)]]
+    | .forS _ ctl _ frm _ to step _ body _ =>
+        .t "For" [.n "For" [("control", .a (txt ctl)), ("from", frm.sx), ("to", to.sx),
+                            ("step", Sx.opt (step.map fun p => p.2.sx)), ("body", .l body.sxs)]]
     | .exitS _ => .a "Exit"
     | .returnS _ => .a "Return"
   def Stl.sxs : Stl → List Sx
@@ -134,6 +143,10 @@ mutual
         kIf.ty = "If" ∧ kThen.ty = "Then" ∧ kElse.ty = "Else" ∧ kEnd.ty = "EndIf" ∧ c.WF 0 ∧ body.WF ∧ els.WF ∧ els.isNil = false
     | .whileS kW kDo c body kEnd => kW.ty = "While" ∧ kDo.ty = "Do" ∧ kEnd.ty = "EndWhile" ∧ c.WF 0 ∧ body.WF ∧ body.isNil = false
     | .repeatS kR body kU c kEnd => kR.ty = "Repeat" ∧ kU.ty = "Until" ∧ kEnd.ty = "EndRepeat" ∧ c.WF 0 ∧ body.WF ∧ body.isNil = false
+    | .forS kFor ctl asg frm kTo to step kDo body kEnd =>
+        kFor.ty = "For" ∧ ctl.ty = "Identifier" ∧ asg.ty = "Assignment" ∧ kTo.ty = "To" ∧ kDo.ty = "Do" ∧ kEnd.ty = "EndFor" ∧
+        frm.WF 0 ∧ to.WF 0 ∧ body.WF ∧ body.isNil = false ∧
+        (match step with | none => True | some (kBy, st) => kBy.ty = "By" ∧ st.WF 0)
     | .exitS k => k.ty = "Exit"
     | .returnS k => k.ty = "Return"
   def Stl.WF : Stl → Prop
@@ -149,6 +162,7 @@ mutual
     | .ifElse _ _ c body _ els _ => c.need + body.need + els.need + 8
     | .whileS _ _ c body _ => c.need + body.need + 8
     | .repeatS _ body _ c _ => c.need + body.need + 8
+    | .forS _ _ _ frm _ to step _ body _ => frm.need + to.need + (match step with | none => 0 | some (_, st) => st.need) + body.need + 8
     | .exitS _ => 1
     | .returnS _ => 1
   def Stl.need : Stl → Nat
@@ -169,6 +183,12 @@ theorem ends_kw (t : Item) (ts : List Item)
   intro u us hu
   cases hu
   rcases h with h | h | h | h <;> rw [h] <;> exact ⟨by decide, by decide⟩
+
+theorem ends_kw2 (t : Item) (ts : List Item) (h : t.ty = "To" ∨ t.ty = "By") :
+    ∀ u us, t :: ts = u :: us → okNext u.ty = true ∧ ∀ row ∈ Gen.prec, u.ty ≠ row.token := by
+  intro u us hu
+  cases hu
+  rcases h with h | h <;> rw [h] <;> exact ⟨by decide, by decide⟩
 
 theorem not_trivia_of (t : Item) (tys : List String) (h : t.ty ∈ tys) (hall : tys.all (fun x => !isTrivia x) = true) :
     isTrivia t.ty = false := by
@@ -321,6 +341,7 @@ theorem flat_chainOf (l : Stl) : ∀ prev, prev :: l.toks = flat (chainOf prev l
   | ifElse => trivial
   | whileS => trivial
   | repeatS => trivial
+  | forS => trivial
   | exitS => trivial
   | returnS => trivial
 
@@ -333,6 +354,7 @@ theorem map_chainOf (l : Stl) : ∀ prev, (chainOf prev l).map (·.1) = l.sxs :=
   | ifElse => trivial
   | whileS => trivial
   | repeatS => trivial
+  | forS => trivial
   | exitS => trivial
   | returnS => trivial
 
@@ -345,6 +367,7 @@ theorem lastSemi_ty (l : Stl) : ∀ prev, prev.ty = "Semicolon" → l.WF → (la
   | ifElse => trivial
   | whileS => trivial
   | repeatS => trivial
+  | forS => trivial
   | exitS => trivial
   | returnS => trivial
 
@@ -362,12 +385,13 @@ theorem chainOf_nonempty (l : Stl) : ∀ prev, ∀ x ∈ chainOf prev l, x.2 ≠
   | ifElse => trivial
   | whileS => trivial
   | repeatS => trivial
+  | forS => trivial
   | exitS => trivial
   | returnS => trivial
 
 /-- a statement starts with a name or a statement keyword -/
 def isStart (ty : String) : Bool :=
-  ty == "Identifier" || ty == "If" || ty == "While" || ty == "Repeat" || ty == "Exit" || ty == "Return"
+  ty == "Identifier" || ty == "If" || ty == "While" || ty == "Repeat" || ty == "For" || ty == "Exit" || ty == "Return"
 
 theorem St.head (s : St) (h : s.WF) : ∃ t ts, s.toks = t :: ts ∧ isStart t.ty = true := by
   cases s with
@@ -376,6 +400,10 @@ theorem St.head (s : St) (h : s.WF) : ∃ t ts, s.toks = t :: ts ∧ isStart t.t
   | ifElse kIf kThen c body kElse els kEnd => exact ⟨kIf, _, rfl, by rw [h.1]; decide⟩
   | whileS kW kDo c body kEnd => exact ⟨kW, _, rfl, by rw [h.1]; decide⟩
   | repeatS kR body kU c kEnd => exact ⟨kR, _, rfl, by rw [h.1]; decide⟩
+  | forS kFor ctl asg frm kTo to step kDo body kEnd =>
+    cases step with
+    | none => exact ⟨kFor, _, rfl, by rw [h.1]; decide⟩
+    | some p => obtain ⟨kBy, st⟩ := p; exact ⟨kFor, _, rfl, by rw [h.1]; decide⟩
   | exitS k => exact ⟨k, _, rfl, by rw [show k.ty = "Exit" from h]; decide⟩
   | returnS k => exact ⟨k, _, rfl, by rw [show k.ty = "Return" from h]; decide⟩
 
@@ -564,6 +592,58 @@ theorem repeatStatement_reads (g : Nat) (kR kU kEnd : Item) (btoks ctoks rest : 
   rfl
 
 
+
+/-- `FOR ctl := frm TO to DO body END_FOR` -/
+theorem forStatement_reads (g : Nat) (kFor ctl asg kTo kDo kEnd : Item) (ftoks ttoks btoks rest : List Item) (frm to : Sx) (body : List Sx)
+    (hFor : kFor.ty = "For") (hC : ctl.ty = "Identifier") (hA : asg.ty = "Assignment") (hTo : kTo.ty = "To") (hDo : kDo.ty = "Do") (hEnd : kEnd.ty = "EndFor")
+    (hwsf : ws (ftoks ++ kTo :: (ttoks ++ kDo :: (btoks ++ kEnd :: rest))) = some ((), ftoks ++ kTo :: (ttoks ++ kDo :: (btoks ++ kEnd :: rest))))
+    (hf : expression g (ftoks ++ kTo :: (ttoks ++ kDo :: (btoks ++ kEnd :: rest))) = some (frm, kTo :: (ttoks ++ kDo :: (btoks ++ kEnd :: rest))))
+    (hwst : ws (ttoks ++ kDo :: (btoks ++ kEnd :: rest)) = some ((), ttoks ++ kDo :: (btoks ++ kEnd :: rest)))
+    (ht : expression g (ttoks ++ kDo :: (btoks ++ kEnd :: rest)) = some (to, kDo :: (btoks ++ kEnd :: rest)))
+    (hwsb : ws (btoks ++ kEnd :: rest) = some ((), btoks ++ kEnd :: rest))
+    (hb : statementList g (btoks ++ kEnd :: rest) = some (body, kEnd :: rest)) :
+    forStatement (g + 1) (kFor :: ctl :: asg :: (ftoks ++ kTo :: (ttoks ++ kDo :: (btoks ++ kEnd :: rest)))) =
+      some (.t "For" [.n "For" [("control", .a (txt ctl)), ("from", frm), ("to", to), ("step", Sx.opt none), ("body", .l body)]], rest) := by
+  rw [forStatement]
+  have hwsDo : ws (kDo :: (btoks ++ kEnd :: rest)) = some ((), kDo :: (btoks ++ kEnd :: rest)) := ws_cons _ _ (by rw [hDo]; decide)
+  rw [bind_some _ _ _ _ _ (tok_hit _ _ _ hFor), bind_some _ _ _ _ _ (ws_cons ctl _ (by rw [hC]; decide)),
+    bind_some _ _ _ _ _ (identifier_hit _ _ hC), bind_some _ _ _ _ _ (ws_cons asg _ (by rw [hA]; decide)),
+    bind_some _ _ _ _ _ (tok_hit _ _ _ hA), bind_some _ _ _ _ _ hwsf, bind_some _ _ _ _ _ hf,
+    bind_some _ _ _ _ _ (ws_cons kTo _ (by rw [hTo]; decide)), bind_some _ _ _ _ _ (tok_hit _ _ _ hTo),
+    bind_some _ _ _ _ _ hwst, bind_some _ _ _ _ _ ht, bind_some _ _ _ _ _ hwsDo,
+    bind_some _ _ _ _ _ (opt_none _ _ (bind_none _ _ _ (tok_miss _ _ _ (by rw [hDo]; decide)))),
+    bind_some _ _ _ _ _ hwsDo, bind_some _ _ _ _ _ (tok_hit _ _ _ hDo), bind_some _ _ _ _ _ hwsb, bind_some _ _ _ _ _ hb,
+    bind_some _ _ _ _ _ (ws_cons kEnd _ (by rw [hEnd]; decide)), bind_some _ _ _ _ _ (tok_hit _ _ _ hEnd)]
+  rfl
+
+/-- `FOR ctl := frm TO to BY step DO body END_FOR` -/
+theorem forByStatement_reads (g : Nat) (kFor ctl asg kTo kBy kDo kEnd : Item) (ftoks ttoks stoks btoks rest : List Item) (frm to st : Sx) (body : List Sx)
+    (hFor : kFor.ty = "For") (hC : ctl.ty = "Identifier") (hA : asg.ty = "Assignment") (hTo : kTo.ty = "To") (hBy : kBy.ty = "By")
+    (hDo : kDo.ty = "Do") (hEnd : kEnd.ty = "EndFor")
+    (hwsf : ws (ftoks ++ kTo :: (ttoks ++ kBy :: (stoks ++ kDo :: (btoks ++ kEnd :: rest)))) = some ((), ftoks ++ kTo :: (ttoks ++ kBy :: (stoks ++ kDo :: (btoks ++ kEnd :: rest)))))
+    (hf : expression g (ftoks ++ kTo :: (ttoks ++ kBy :: (stoks ++ kDo :: (btoks ++ kEnd :: rest)))) = some (frm, kTo :: (ttoks ++ kBy :: (stoks ++ kDo :: (btoks ++ kEnd :: rest)))))
+    (hwst : ws (ttoks ++ kBy :: (stoks ++ kDo :: (btoks ++ kEnd :: rest))) = some ((), ttoks ++ kBy :: (stoks ++ kDo :: (btoks ++ kEnd :: rest))))
+    (ht : expression g (ttoks ++ kBy :: (stoks ++ kDo :: (btoks ++ kEnd :: rest))) = some (to, kBy :: (stoks ++ kDo :: (btoks ++ kEnd :: rest))))
+    (hwss : ws (stoks ++ kDo :: (btoks ++ kEnd :: rest)) = some ((), stoks ++ kDo :: (btoks ++ kEnd :: rest)))
+    (hs : expression g (stoks ++ kDo :: (btoks ++ kEnd :: rest)) = some (st, kDo :: (btoks ++ kEnd :: rest)))
+    (hwsb : ws (btoks ++ kEnd :: rest) = some ((), btoks ++ kEnd :: rest))
+    (hb : statementList g (btoks ++ kEnd :: rest) = some (body, kEnd :: rest)) :
+    forStatement (g + 1) (kFor :: ctl :: asg :: (ftoks ++ kTo :: (ttoks ++ kBy :: (stoks ++ kDo :: (btoks ++ kEnd :: rest))))) =
+      some (.t "For" [.n "For" [("control", .a (txt ctl)), ("from", frm), ("to", to), ("step", Sx.opt (some st)), ("body", .l body)]], rest) := by
+  rw [forStatement]
+  have hwsDo : ws (kDo :: (btoks ++ kEnd :: rest)) = some ((), kDo :: (btoks ++ kEnd :: rest)) := ws_cons _ _ (by rw [hDo]; decide)
+  have hstep : (do let _ ← tok "By"; ws; expression g : P Sx) (kBy :: (stoks ++ kDo :: (btoks ++ kEnd :: rest))) = some (st, kDo :: (btoks ++ kEnd :: rest)) := by
+    rw [bind_some _ _ _ _ _ (tok_hit _ _ _ hBy), bind_some _ _ _ _ _ hwss]; exact hs
+  rw [bind_some _ _ _ _ _ (tok_hit _ _ _ hFor), bind_some _ _ _ _ _ (ws_cons ctl _ (by rw [hC]; decide)),
+    bind_some _ _ _ _ _ (identifier_hit _ _ hC), bind_some _ _ _ _ _ (ws_cons asg _ (by rw [hA]; decide)),
+    bind_some _ _ _ _ _ (tok_hit _ _ _ hA), bind_some _ _ _ _ _ hwsf, bind_some _ _ _ _ _ hf,
+    bind_some _ _ _ _ _ (ws_cons kTo _ (by rw [hTo]; decide)), bind_some _ _ _ _ _ (tok_hit _ _ _ hTo),
+    bind_some _ _ _ _ _ hwst, bind_some _ _ _ _ _ ht, bind_some _ _ _ _ _ (ws_cons kBy _ (by rw [hBy]; decide)),
+    bind_some _ _ _ _ _ (opt_some _ _ _ _ hstep),
+    bind_some _ _ _ _ _ hwsDo, bind_some _ _ _ _ _ (tok_hit _ _ _ hDo), bind_some _ _ _ _ _ hwsb, bind_some _ _ _ _ _ hb,
+    bind_some _ _ _ _ _ (ws_cons kEnd _ (by rw [hEnd]; decide)), bind_some _ _ _ _ _ (tok_hit _ _ _ hEnd)]
+  rfl
+
 /-! ### the round trip -/
 
 theorem flat_chainOf_app (l : Stl) (prev K : Item) (R : List Item) :
@@ -683,6 +763,55 @@ mutual
       apply orElse_some
       rw [hr]
       rfl
+    | .forS kFor ctl asg frm kTo to step kDo body kEnd, hwf, F, semi, R, hsemi, hF => by
+      obtain ⟨hFor, hC, hA, hTo, hDo, hEnd, hfr, hto, hb, hbne, hstep⟩ := hwf
+      have hKend : isCloser kEnd.ty = true := by rw [hEnd]; decide
+      cases step with
+      | none =>
+        simp only [St.need] at hF
+        obtain ⟨g, rfl⟩ : ∃ g, F = g + 4 := ⟨F - 4, by omega⟩
+        have hef := expression_reads frm (kTo :: (to.toks ++ kDo :: (body.toks ++ kEnd :: semi :: R))) (g + 2) hfr
+          (ends_kw2 kTo _ (Or.inl hTo)) (by omega)
+        have het := expression_reads to (kDo :: (body.toks ++ kEnd :: semi :: R)) (g + 2) hto
+          (ends_kw kDo _ (Or.inr (Or.inl hDo))) (by omega)
+        have hbody := stl_reads body hb hbne g kEnd (semi :: R) hKend (by omega)
+        have hfor := forStatement_reads (g + 2) kFor ctl asg kTo kDo kEnd frm.toks to.toks body.toks (semi :: R) frm.sx to.sx body.sxs
+          hFor hC hA hTo hDo hEnd (ws_toks frm 0 _ hfr) hef (ws_toks to 0 _ hto) het (ws_stl body hb kEnd _ hKend) hbody
+        have htoks : (St.forS kFor ctl asg frm kTo to none kDo body kEnd).toks ++ semi :: R
+            = kFor :: ctl :: asg :: (frm.toks ++ kTo :: (to.toks ++ kDo :: (body.toks ++ kEnd :: semi :: R))) := by
+          simp [St.toks, List.append_assoc]
+        rw [htoks, statement]
+        rw [orElse_none _ _ _ (assignAlt_none _ kFor _ (by rw [hFor]; decide) (by rw [hFor]; decide))]
+        rw [orElse_none _ _ _ (ifStatement_none _ kFor _ (by rw [hFor]; decide))]
+        rw [orElse_none _ _ _ (caseStatement_none _ kFor _ (by rw [hFor]; decide))]
+        apply orElse_some
+        rw [hfor]
+        rfl
+      | some p =>
+        obtain ⟨kBy, st⟩ := p
+        obtain ⟨hBy, hst⟩ := hstep
+        simp only [St.need] at hF
+        obtain ⟨g, rfl⟩ : ∃ g, F = g + 4 := ⟨F - 4, by omega⟩
+        have hef := expression_reads frm (kTo :: (to.toks ++ kBy :: (st.toks ++ kDo :: (body.toks ++ kEnd :: semi :: R)))) (g + 2) hfr
+          (ends_kw2 kTo _ (Or.inl hTo)) (by omega)
+        have het := expression_reads to (kBy :: (st.toks ++ kDo :: (body.toks ++ kEnd :: semi :: R))) (g + 2) hto
+          (ends_kw2 kBy _ (Or.inr hBy)) (by omega)
+        have hes := expression_reads st (kDo :: (body.toks ++ kEnd :: semi :: R)) (g + 2) hst
+          (ends_kw kDo _ (Or.inr (Or.inl hDo))) (by omega)
+        have hbody := stl_reads body hb hbne g kEnd (semi :: R) hKend (by omega)
+        have hfor := forByStatement_reads (g + 2) kFor ctl asg kTo kBy kDo kEnd frm.toks to.toks st.toks body.toks (semi :: R)
+          frm.sx to.sx st.sx body.sxs hFor hC hA hTo hBy hDo hEnd (ws_toks frm 0 _ hfr) hef (ws_toks to 0 _ hto) het
+          (ws_toks st 0 _ hst) hes (ws_stl body hb kEnd _ hKend) hbody
+        have htoks : (St.forS kFor ctl asg frm kTo to (some (kBy, st)) kDo body kEnd).toks ++ semi :: R
+            = kFor :: ctl :: asg :: (frm.toks ++ kTo :: (to.toks ++ kBy :: (st.toks ++ kDo :: (body.toks ++ kEnd :: semi :: R)))) := by
+          simp [St.toks, List.append_assoc]
+        rw [htoks, statement]
+        rw [orElse_none _ _ _ (assignAlt_none _ kFor _ (by rw [hFor]; decide) (by rw [hFor]; decide))]
+        rw [orElse_none _ _ _ (ifStatement_none _ kFor _ (by rw [hFor]; decide))]
+        rw [orElse_none _ _ _ (caseStatement_none _ kFor _ (by rw [hFor]; decide))]
+        apply orElse_some
+        rw [hfor]
+        rfl
     | .exitS k, hwf, F, semi, R, hsemi, hF => by
       have hk : k.ty = "Exit" := hwf
       obtain ⟨g, rfl⟩ : ∃ g, F = g + 1 := ⟨F - 1, by simp only [St.need] at hF; omega⟩
@@ -768,6 +897,14 @@ theorem need_le_toks : (∀ s : St, s.need ≤ 5 * s.toks.length) ∧ (∀ l : S
       have := hS c; simp only [St.need, St.toks, List.length_cons, List.length_append, List.length_nil]; omega
     | repeatS kR body kU c kEnd ih =>
       have := hS c; simp only [St.need, St.toks, List.length_cons, List.length_append, List.length_nil]; omega
+    | forS kFor ctl asg frm kTo to step kDo body kEnd ih =>
+      have h1 := hS frm; have h2 := hS to
+      cases step with
+      | none => simp only [St.need, St.toks, List.length_cons, List.length_append, List.length_nil]; omega
+      | some p =>
+        obtain ⟨kBy, st⟩ := p
+        have h3 := hS st
+        simp only [St.need, St.toks, List.length_cons, List.length_append, List.length_nil]; omega
     | exitS k => simp [St.need, St.toks]
     | returnS k => simp [St.need, St.toks]
     | nil => simp [Stl.need, Stl.toks]
@@ -782,6 +919,14 @@ theorem need_le_toks : (∀ s : St, s.need ≤ 5 * s.toks.length) ∧ (∀ l : S
       have := hS c; simp only [St.need, St.toks, List.length_cons, List.length_append, List.length_nil]; omega
     | repeatS kR body kU c kEnd ih =>
       have := hS c; simp only [St.need, St.toks, List.length_cons, List.length_append, List.length_nil]; omega
+    | forS kFor ctl asg frm kTo to step kDo body kEnd ih =>
+      have h1 := hS frm; have h2 := hS to
+      cases step with
+      | none => simp only [St.need, St.toks, List.length_cons, List.length_append, List.length_nil]; omega
+      | some p =>
+        obtain ⟨kBy, st⟩ := p
+        have h3 := hS st
+        simp only [St.need, St.toks, List.length_cons, List.length_append, List.length_nil]; omega
     | exitS k => simp [St.need, St.toks]
     | returnS k => simp [St.need, St.toks]
     | nil => simp [Stl.need, Stl.toks]
